@@ -3,6 +3,7 @@ package c09own
 import (
 	"context"
 	"fmt"
+	"runtime"
 	"testing"
 	"time"
 
@@ -32,6 +33,8 @@ type RealPlan struct {
 	Buf     int    `json:"buf"`
 	Inputs  int    `json:"inputs"` // Merge
 	FSlowUs int    `json:"f_slow_us,omitempty"`
+	// OneP: the case runs with GOMAXPROCS(1), and Par may be <= 0 ("as many as there are processors": one)
+	OneP bool `json:"one_p,omitempty"`
 }
 
 func genReal(t *rapid.T) RealPlan {
@@ -50,11 +53,19 @@ func genReal(t *rapid.T) RealPlan {
 	if rapid.IntRange(0, 2).Draw(t, "early") == 0 {
 		p.Stop = rapid.IntRange(0, p.N).Draw(t, "stop")
 	}
+	if rapid.IntRange(0, 3).Draw(t, "autopar") == 0 {
+		p.Par = rapid.SampledFrom([]int{0, -1}).Draw(t, "parauto")
+		p.OneP = rapid.Bool().Draw(t, "onep")
+	}
 	return p
 }
 
 func runReal(p RealPlan) (vk.Outcome, error) {
 	var out vk.Outcome
+	if p.OneP {
+		defer runtime.GOMAXPROCS(runtime.GOMAXPROCS(1))
+		out.Label("gomaxprocs=1")
+	}
 	E, FE := sk.NewSentinel("E"), sk.NewSentinel("FE")
 	var srcs []*sk.RecStream[int]
 	mk := func(name string, items []int, errAt int) *sk.RecStream[int] {
@@ -89,7 +100,7 @@ func runReal(p RealPlan) (vk.Outcome, error) {
 	case "MapStream":
 		s = parallel.MapStream[int, int](bg, mk("src", items, p.ErrAt), p.Par, p.Buf, f)
 	case "Batch":
-		s = flatten(stream.Batch[int](mk("src", items, p.ErrAt), 200*time.Microsecond, p.Par))
+		s = flatten(stream.Batch[int](mk("src", items, p.ErrAt), 200*time.Microsecond, max(p.Par, 1)))
 	case "MapStream+Batch":
 		s = parallel.MapStream[int, int](bg, flatten(stream.Batch[int](mk("src", items, p.ErrAt), 200*time.Microsecond, 2)), p.Par, p.Buf, f)
 	default:
